@@ -372,7 +372,30 @@ def missing_entries():
     return re.findall(r'\("([a-z0-9_]+)",\s*(\d+)\)', so + se)
 
 
+MAX_REPORTS = 30
+
+
+def cap_violations(ctx):
+    """a systematic break (e.g. every buffer bound to the wrong slot) would print hundreds of lines: keep the first
+    MAX_REPORTS, say how many more there were"""
+    orig = ctx.violation
+    state = {"n": 0, "dropped": 0}
+
+    def limited(what, files=None, found_input=True, key=None, broken=None):
+        for k in ctx._known:
+            if k.get("status") == "open" and key is not None and k.get("match") == key:
+                return orig(what, files=files, found_input=found_input, key=key, broken=broken)
+        if state["n"] >= MAX_REPORTS:
+            state["dropped"] += 1
+            ctx.cov["violations_not_printed"] = state["dropped"]
+            return False
+        state["n"] += 1
+        return orig(what, files=files, found_input=found_input, key=key, broken=broken)
+    ctx.violation = limited
+
+
 def run(ctx):
+    cap_violations(ctx)
     tools = vcheck.build_harness(["msldrive", "goextract"])
     broken = None
     gen_error = None
